@@ -206,7 +206,12 @@ static bool unchanged(void)
 	for (unsigned i = 0; i < verif_map_n; i++) if (snap_key[i] != verif_map_key[i] || snap_mval[i] != verif_map_val[i]) return false;
 	return true;
 }
+#ifdef EL_ALLOC_FAIL
+/* under allocation failure the response itself may be impossible to build: at most one, nothing leaked */
+#define ONE_RESPONSE(r, extra) __CPROVER_assert(verif_err + verif_ok == 1 && ((r) == NULL || has_id) && verif_cj_live_nodes == verif_world_nodes + (extra) + ((r) != NULL ? 1u : 0u), "C15.handler.at-most-one-response-nothing-leaked")
+#else
 #define ONE_RESPONSE(r, extra) __CPROVER_assert(verif_err + verif_ok == 1 && ((r) != NULL) == has_id && verif_cj_live_nodes == verif_world_nodes + (extra) + ((r) != NULL ? 1u : 0u), "C02.handler.exactly-one-response-object-built")
+#endif
 static void release_world(void) { for (unsigned i = 0; i < 2; i++) if (verif_e[i].value != NULL) { cJSON_Delete(verif_e[i].value); verif_e[i].value = NULL; } }
 
 /* ---- add ---------------------------------------------------------------------------------------------------- */
@@ -233,7 +238,9 @@ void h_el_add(void)
 	} else {
 		__CPROVER_assert(unchanged(), "C04.add.refused-request-changes-nothing");
 		__CPROVER_assert(!(well_formed && path_free) || verif_err_code == INTERNAL_ERROR, "C04.add.well-formed-add-on-a-free-path-fails-only-with-an-internal-error");
+#ifndef EL_ALLOC_FAIL
 		__CPROVER_assert(path_free || !path_ok() || verif_err_code == INVALID_PARAMS, "C04.add.occupied-path-is-refused-as-invalid-params");
+#endif
 		if (verif_find_calls == 1 && verif_find_ret == 0)
 			__CPROVER_assert(0, "C01.add.no-add-event-without-an-element");
 	}
